@@ -4,7 +4,8 @@
 (* with the logged parameters and, where the hook logs a value (ack count, epochs, new session), the logged effect.   *)
 (* Events are ordered by one global sequence number drawn inside the hook, i.e. under the lock protecting the state   *)
 (* and before the step's first socket write. Sessions are numbered in creation order by the recorder, like nextId.    *)
-(* Several executions are concatenated; a "reset" line starts a new one.                                              *)
+(* Several executions are concatenated; a "reset" line starts a new one (its field t lists the pools whose watcher    *)
+(* had not yet reached its select when recording began: they start in "pick").                                        *)
 (* The old listener's notification set is taken from the trace (the LNotify lines of that call): the server's view of *)
 (* which sessions are open may lag behind the client's (deviation D2), so only T \subseteq {old, default} is checked. *)
 EXTENDS HotRestart, Json, TracePath
@@ -23,7 +24,7 @@ TReset == /\ Is("reset")
           /\ s2c' = [i \in SessIds |-> <<>>] /\ c2s' = [i \in SessIds |-> <<>>]
           /\ lstate' = "def" /\ lepoch' = 0 /\ ack' = 0 /\ hrCalls' = 0 /\ oldUp' = TRUE /\ newUp' = FALSE
           /\ mstate' = "def" /\ mepoch' = 0 /\ cur' = [p \in Pools |-> p] /\ reserve' = [p \in Pools |-> NoSess] /\ closed' = "no"
-          /\ wpc' = [p \in Pools |-> "watch"] /\ wsess' = [p \in Pools |-> p]
+          /\ wpc' = [p \in Pools |-> IF p \in SetOfSeq(E.t) THEN "pick" ELSE "watch"] /\ wsess' = [p \in Pools |-> p]
           /\ tq' = <<>> /\ dies' = 0 /\ injs' = 0 /\ kf' = {} /\ idAtClose' = 0
 
 \* ---- old listener
@@ -60,7 +61,10 @@ TSMClosed == Is("SMClosed") /\ SMCloseFin
 TSClose == /\ Is("SClose") /\ sess' = Kill({E.s})
            /\ UNCHANGED <<nextId,s2c,c2s,lstate,lepoch,ack,hrCalls,oldUp,newUp,mstate,mepoch,cur,reserve,closed,wpc,wsess,tq,dies,injs,kf,idAtClose>>
 
-TraceNext == \/ TReset \/ TLBegin \/ TLNotify \/ TLEnd \/ TLAck \/ TLDone \/ TLTimeout \/ TLClose \/ TNew
+\* once an execution has entered a listed known-finding class its remaining events are outside the claim: skipped
+TSkip == /\ l <= Len(Trace) /\ E.ev # "reset" /\ ~NotPruned /\ l' = l + 1 /\ Same
+
+TraceNext == \/ TSkip \/ TReset \/ TLBegin \/ TLNotify \/ TLEnd \/ TLAck \/ TLDone \/ TLTimeout \/ TLClose \/ TNew
              \/ TMIgnore \/ TMRepeat \/ TMConnFail \/ TMSwapOn \/ TMSwap \/ TMDone \/ TMTimeout
              \/ TWPick \/ TWLost \/ TWSkip \/ TWFail \/ TWConn \/ TWExit \/ TSMClose \/ TSMClosed \/ TSClose
 TraceSpec == TInit /\ [][TraceNext]_tvars
